@@ -226,7 +226,7 @@ def run(ctx):
     if ctx.quick:
         base = base[::3]
     ctx.cases([c for i, c in enumerate(base) if ctx.mine(i)], check, label="catalogue")
-    ctx.given(cases(), check, quick=320, thorough=12000)
+    ctx.given(cases(), check, quick=320, thorough=10000)
 
 
 def replay(case):
